@@ -86,5 +86,6 @@ package orderedmap
 //@ ensures insert-appends (=> (not (old (mapin m.inner key))) (and (= (len m.Pairs) (+ (old (len m.Pairs)) 1)) (= (omPair m (old (len m.Pairs))) (mapget m.inner key)) (fresh (mapget m.inner key)) (forall ((i Int)) (=> (and (<= 0 i) (< i (old (len m.Pairs)))) (= (omPair m i) (old (omPair m i)))))))
 //@ ensures pairs-array-kept-or-fresh (or (= (arrof m.Pairs) (old (arrof m.Pairs))) (fresh m.Pairs))
 //@ ensures other-arrays-untouched (forall ((a Int)) (=> (and (allocated-before a) (or (= a 0) (not (= a (old (arrof m.Pairs)))))) (= (rowat m.Pairs a) (old (rowat m.Pairs a)))))
+//@ ensures other-slices-untouched (forall ((s (typeof m.Pairs)) (j Int)) (=> (and (allocated-before s) (or (= (arrof s) 0) (not (= (arrof s) (old (arrof m.Pairs)))))) (= (idx s j) (old (idx s j)))) (pattern (idx s j)) (pattern (old (idx s j))))
 //@ ensures other-pairs-untouched (forall ((p (typeof (omPair m 0)))) (=> (and (allocated-before p) (not (and (old (mapin m.inner key)) (= p (old (mapget m.inner key)))))) (= (deref p) (old (deref p)))))
 //@ ensures others-untouched (omOthersUntouched m)
